@@ -106,6 +106,7 @@ class Body:
         self._cfg = None
         self.debug_names = {}
         self.upvar_names = {}
+        self._raw_debug = data.get("debug", [])
         for v in data.get("debug", []):
             pl = v.get("place")
             if not pl:
@@ -119,6 +120,29 @@ class Body:
     @property
     def short(self):
         return strip_generics(self.name)
+
+    def pin_names(self, pinned):
+        """Render parameters and captured variables under the names they had on the pinned tree (by position), so that a
+        behaviour-preserving rename of a parameter or captured local does not change any extracted expression."""
+        ent = pinned.get(self.short)
+        if not ent:
+            return
+        cur_params = [self.debug_names.get(i) for i in range(1, self.arg_count + 1)]
+        if len(ent.get("params", [])) == len(cur_params):
+            for i, n in enumerate(ent["params"]):
+                if n is not None and cur_params[i] is not None:
+                    self.debug_names[i + 1] = n
+        # upvars by capture index
+        cur = {}
+        for key, name in self.upvar_names.items():
+            f = [e for e in key if e[0] == "f"]
+            if f:
+                cur[int(f[0][1])] = key
+        if ent.get("upvars") and len(ent["upvars"]) == len(cur):
+            for idx, n in ent["upvars"].items():
+                k = cur.get(int(idx))
+                if k is not None:
+                    self.upvar_names[k] = n
 
     def where(self, line=None):
         return "%s:%s" % (self.file, line if line else self.lo)
@@ -213,6 +237,13 @@ class Facts:
             for i in d["impls"]:
                 i["crate"] = crate
                 self.impls.append(i)
+        pin = os.path.join(os.path.dirname(os.path.dirname(os.path.abspath(__file__))), "tables", "pinned_names.json")
+        if os.path.exists(pin) and not os.environ.get("AQV_NO_PIN"):
+            with open(pin) as fh:
+                pinned = json.load(fh)
+            for b in self.bodies.values():
+                if b.kind != "promoted":
+                    b.pin_names(pinned)
         self._adt_by_tail = {}
         for name in self.adts:
             parts = name.split("::")
